@@ -193,6 +193,18 @@ func (ix *sqIdx) DDL(table string) string {
 
 // DDL of the whole schema; foreign keys may be cyclic, SQLite resolves parents lazily.
 func (s *sqSchema) DDL() []string {
+	// a STRICT table rejects (at ALTER time, or on the first row) an integer column whose default is not
+	// integral: such a desired state is not satisfiable, keep it out of the generated schemas
+	for _, t := range s.Tables {
+		if !t.Strict {
+			continue
+		}
+		for i := range t.Cols {
+			if c := &t.Cols[i]; isIntType(c.Type) && c.Default == "1.50" {
+				c.Default = "2"
+			}
+		}
+	}
 	var out []string
 	for _, t := range s.Tables {
 		out = append(out, t.DDL()...)
